@@ -71,6 +71,16 @@ func usage() {
 	os.Exit(2)
 }
 
+// extraRules: rules added after the first pass, evaluated together with the property's own run.
+var extraRules = map[string][]func(p *Program, r *Report){}
+
+func runProp(id string, p *Program, r *Report) {
+	registry[id].run(p, r)
+	for _, f := range extraRules[id] {
+		f(p, r)
+	}
+}
+
 func runChecks(props []string, tier string, writeEv bool) (code int) {
 	for _, id := range props {
 		if registry[id] == nil {
@@ -125,15 +135,15 @@ func runChecks(props []string, tier string, writeEv bool) (code int) {
 			r.Configs = append(r.Configs, p.Config)
 			r.Packages = len(p.Pkgs)
 			r.Functions = p.NFuncs
-			pc.run(p, r)
+			runProp(id, p, r)
 		}
 		p = nil
 		debug.FreeOSMemory()
 	}
 	if tier == "thorough" {
 		for _, id := range props {
-			if registry[id].controls != nil {
-				reports[id].Controls = runControls(id, registry[id].controls())
+			if len(controlsOf(id)) > 0 {
+				reports[id].Controls = runControls(id, controlsOf(id))
 			}
 		}
 	}
